@@ -67,9 +67,9 @@ fn m(op: usize, bound: &str, ver: &str) -> bool {
 
 /// The same laws through the public API, on arbitrary text (any tokenisation).
 pub fn h_api_laws() {
-    let n = sym::bound(2, 3);
-    let a = sym::any_str("a", "utf8", 0, n);
-    let b = sym::any_str("b", "utf8", 0, n);
+    // thorough: only the first string grows (every law is also checked with the sides swapped)
+    let a = sym::any_str("a", "utf8", 0, sym::bound(2, 3));
+    let b = sym::any_str("b", "utf8", 0, 2);
     sym::assume(clean(&a) & clean(&b));
     let lt = m(1, &b, &a);
     let gt = m(3, &b, &a);
@@ -87,9 +87,10 @@ pub fn h_api_laws() {
 
 /// A two-bound pattern matches exactly when both single-bound halves match.
 pub fn h_two_bounds() {
+    // thorough: the lower bound and the package version grow, the upper bound stays at one character
     let n = sym::bound(1, 2);
     let v1 = sym::any_str("v1", "ascii", 0, n);
-    let v2 = sym::any_str("v2", "ascii", 0, n);
+    let v2 = sym::any_str("v2", "ascii", 0, 1);
     let w = sym::any_str("w", "ascii", 0, n);
     sym::assume(clean(&v1) & clean(&v2) & clean(&w));
     let o1 = 2 + sym::choose("o1", 2); // >= >
